@@ -814,7 +814,8 @@ PROPS = {
     "C10": {"runs": [cache_run_spec(proj_cache_full, ["C10"])]},
     "C11": {"runs": [cache_run_spec(proj_cache_full, ["C11"]),
                      # a result set that is never closed pins its sql.Stmt: the driver statement is then never closed either
-                     iter_run_spec(proj_iter_account, ["C11"], nq=1500, nt=50000)]},
+                     iter_run_spec(proj_iter_account, ["C11"], nq=1500, nt=50000),
+                     {"kind": "scan", "n": {"quick": 1500, "thorough": 50000}, "oracle_props": ["C11"], "project": proj_scan_c18}]},
     "C20": {"runs": [cache_run_spec(proj_cache_events, ["C20"]), tx_run_spec(["C20"], compare=True, nq=200),
                      iter_run_spec(proj_iter_full, ["C20"], nq=2000)]},
     "C13": {"runs": [iter_run_spec(proj_iter_account, ["C13"]),
@@ -829,7 +830,8 @@ PROPS = {
                      {"kind": "scan", "n": {"quick": 3000, "thorough": 100000}, "oracle_props": ["C15"]}]},
     "C03": {"uses_genconsts": True, "runs": [bind_run(proj_bind_c03, ["C03"]),
                                              {"kind": "determ", "n": {"quick": 300, "thorough": 10000}, "oracle_props": ["C03"]}]},
-    "C04": {"uses_genconsts": True, "runs": [bind_run(proj_bind_c04, ["C04"]), cache_run_spec(proj_cache_events, ["C04"], nq=60, nt=600)]},
+    "C04": {"uses_genconsts": True, "runs": [bind_run(proj_bind_c04, ["C04"]), cache_run_spec(proj_cache_events, ["C04"], nq=60, nt=600),
+                                             {"kind": "determ", "n": {"quick": 200, "thorough": 5000}, "oracle_props": ["C04"]}]},
     "C05": {"uses_genconsts": True, "runs": [bind_run(proj_bind_c05, ["C05"]), tx_run_spec(["C05"], compare=True, nq=200),
                                              # "an alias ... identifies its destination": the aliases of the generated SQL, read back as
                                              # result columns, lead to the destinations (also with other Queries built in between)
@@ -847,6 +849,8 @@ PROPS = {
             bind_run(proj_bind_c05, ["C01"], nq=3000, nt=100000),
             # ... and the statement that is executed is the one generated for this call, also under concurrent use
             cache_run_spec(proj_cache_events, ["C01"], nq=60, nt=600),
+            # ... and what a statement sends does not depend on which other queries are being prepared at the same time
+            {"kind": "determ", "n": {"quick": 200, "thorough": 5000}, "oracle_props": ["C01"]},
         ],
     },
     "C02": {
